@@ -12,6 +12,7 @@ from props.base import Context  # noqa: F401
 
 PID = 'C13'
 TIE_MODULES = ['DiffxVerif.Tie.Hunks']
+NEEDS = ['hunks', 'dom', 'text']
 ASSUMPTIONS = [
     'diffs are assembled from generated hunks with known counts (harness/domgen.gen_hunk_diff); ground truth is by construction, independent of the hunk parser',
     'D15 classifier: the diff encoding maps "@ +-\\\\" to bytes other than their ASCII values (UTF-16/32, EBCDIC)',
